@@ -27,7 +27,7 @@ if [ -n "$SKIP_CHECK" ]; then
   chk="(check not run yet)"; caught=pending
 else
   git -C /repo apply $OUT/patch.diff
-  chk=$(cd /verif && ./check $CK quick 2>&1 | grep -v "^INCONCLUSIVE\|^UNCONFIRMED\|^KNOWN" | cut -c1-400 | tail -6)
+  chk=$(cd /verif && SYMGO_EVIDENCE_DIR=/tmp/ev_seed ./check $CK quick 2>&1 | grep -v "^INCONCLUSIVE\|^UNCONFIRMED\|^KNOWN" | cut -c1-400 | tail -8)
   git -C /repo checkout -- .
   caught=no; echo "$chk" | grep -q "^VIOLATION property=$CK" && caught=yes
 fi
@@ -35,7 +35,9 @@ python3 - "$ID" "$N" "$CK" "$clean_demo" "$build" "$seeded_demo" "$suite" "$caug
 import json,sys
 ID,N,CK,clean,build,seeded,suite,caught,chk=sys.argv[1:10]
 meta=json.load(open('/tmp/wt_%s/seed%s.json'%(ID,N)))
-meta.update({"checked_by_me":{"demo_without_change":clean,"build_with_change":build or "ok","demo_with_change":seeded,"existing_suite_with_change":suite or "all packages ok","check_run":"./check %s quick (patch applied to /repo with git apply, undone afterwards)"%CK,"check_caught":caught,"check_output_tail":chk}})
+import re
+caught_by="; ".join(sorted(set(re.findall(r"what: ([^\[]{0,160})", chk))))[:400]
+meta.update({"checked_by_me":{"caught_by":caught_by,"demo_without_change":clean,"build_with_change":build or "ok","demo_with_change":seeded,"existing_suite_with_change":suite or "all packages ok","check_run":"./check %s quick (patch applied to /repo with git apply, undone afterwards)"%CK,"check_caught":caught,"check_output_tail":chk}})
 json.dump(meta,open('/verif/seeded/%s-%s/meta.json'%(ID,N),'w'),indent=1)
 print(ID,N,"caught="+caught,"| demo clean:",clean[:60],"| demo seeded:",seeded[:80],"| suite:",(suite or "ok")[:60])
 PY
